@@ -3,7 +3,7 @@ import re
 import looplib as L
 from vlib import Failure, finish, hexs, unhexs
 
-COQ_FILES = L.LOOP_COQ_FILES + ["AlbumArtProofs.v"]
+COQ_FILES = L.LOOP_COQ_FILES + ["CallerProofs.v"]
 
 URI = "foo/bar.mp3"
 
